@@ -45,9 +45,28 @@ def write_replay(pid, seed, tier, kind, broken, case, obs, detail, n):
     return str(p.relative_to(core.VERIF))
 
 
+class CaseTimeout(Exception):
+    pass
+
+
+def _alarm(signum, frame):
+    raise CaseTimeout()
+
+
+CASE_TIMEOUT_S = int(os.environ.get("VERIF_CASE_TIMEOUT", "120"))
+
+
 def run_case(P, case):
+    import signal
     try:
-        return P.run(case)
+        signal.signal(signal.SIGALRM, _alarm)
+        signal.alarm(CASE_TIMEOUT_S)
+        try:
+            return P.run(case)
+        finally:
+            signal.alarm(0)
+    except CaseTimeout:  # e.g. an accumulation that never terminates: reported, not waited for
+        return {"error": "Timeout", "msg": f"the implementation did not return within {CASE_TIMEOUT_S} s on this input", "unexpected": True, "tb": ""}
     except Exception as e:  # the implementation raised where the driver did not expect it
         return {"error": type(e).__name__, "msg": str(e)[:300], "unexpected": True,
                 "tb": traceback.format_exc()[-1500:]}
